@@ -622,8 +622,8 @@ func propConcurrentBinds(t *rapid.T) {
 	ev.Case()
 	binding.ResetValidator()
 	defer binding.ResetValidator()
-	g := rapid.IntRange(2, 6).Draw(t, "goroutines")
-	per := rapid.IntRange(3, 12).Draw(t, "bindsEach")
+	g := rapid.IntRange(2, 4).Draw(t, "goroutines")
+	per := rapid.IntRange(2, 6).Draw(t, "bindsEach")
 	format := rapid.SampledFrom(formats).Draw(t, "format")
 	type job struct {
 		p    Payload
